@@ -26,6 +26,10 @@ type Plan struct {
 	// Sched is the value of VERIF_BONDGO_SCHED ("point=k,…": k yields; "point=kus": sleep k µs) read by
 	// the verif-tagged hook in pkg/bondgo. Ignored by a binary without the hook.
 	Sched string
+	// Race runs the compiler built with the Go race detector ($VERIF_TOOLS/race/bondgo): goroutines that
+	// share what goes into the output without synchronisation are a dependence on the schedule whether or
+	// not this run's schedule showed it
+	Race bool `json:",omitempty"`
 }
 
 const (
@@ -176,6 +180,11 @@ func runOnce(src string, rsize int, mpm bool, p Plan, deadline time.Duration, pr
 	if err != nil {
 		return RunResult{Status: "harness-error", Stderr: err.Error()}
 	}
+	if p.Race {
+		if bin, err = toolPath("race/bondgo"); err != nil {
+			return RunResult{Status: "no-race-tool", Stderr: err.Error()}
+		}
+	}
 	root, err := workDir()
 	if err != nil {
 		return RunResult{Status: "harness-error", Stderr: err.Error()}
@@ -205,6 +214,9 @@ func runOnce(src string, rsize int, mpm bool, p Plan, deadline time.Duration, pr
 	}
 	cmd.Env = []string{"PATH=/usr/bin:/bin", "HOME=" + dir, "GOTRACEBACK=all",
 		"GOMAXPROCS=" + strconv.Itoa(gmp), "VERIF_BONDGO_SCHED=" + p.Sched}
+	if p.Race {
+		cmd.Env = append(cmd.Env, "GORACE=halt_on_error=1 exitcode=66")
+	}
 	var so, se bytes.Buffer
 	cmd.Stdout, cmd.Stderr = &so, &se
 	if err := cmd.Start(); err != nil {
@@ -254,6 +266,11 @@ func runOnce(src string, rsize int, mpm bool, p Plan, deadline time.Duration, pr
 		} else {
 			return RunResult{Status: "harness-error", Stderr: werr.Error()}
 		}
+	}
+	if p.Race && strings.Contains(res.Stderr, "WARNING: DATA RACE") {
+		res.Status = "race"
+		res.Dump = res.Stderr[strings.Index(res.Stderr, "WARNING: DATA RACE"):]
+		return res
 	}
 	if strings.Contains(res.Stderr, "all goroutines are asleep") {
 		res.Dump = res.Stderr
